@@ -521,6 +521,55 @@ pub fn check_history(base_stream: bool, base_n: u32, producers: &[Producer], seq
     Ok(())
 }
 
+
+// ----- family R: an object of the previous revisions is cloned into the update, edited there, and cloned again -----
+/// what the object is edited into: values, and references whose target the update holds / only the previous revisions hold / nobody holds / itself
+pub const N_EDITS: usize = 6;
+fn edit_value(k: usize) -> Object {
+    match k {
+        0 => Object::Integer(7),
+        1 => Object::Reference((3, 0)),      // target only in the previous revisions
+        2 => Object::Reference((99, 0)),     // dangling
+        3 => Object::Reference((2, 0)),      // itself
+        4 => Object::Reference((40, 0)),     // target added to the update
+        _ => Object::Array(vec![Object::Reference((3, 0)), Object::Null]),
+    }
+}
+/// `calls` = how the second clone is asked for: 0 opt_clone_object_to_new_document, 1 get_or_create_resources (result ignored)
+pub fn check_reclone(base_stream: bool, edit: usize, call: usize) -> Result<(), (String, String)> {
+    let (mut d, _) = base_doc(3, Kind::Values);
+    if base_stream { d.reference_table.cross_reference_type = lopdf::xref::XrefType::CrossReferenceStream; }
+    let mut file = vec![];
+    d.save_to(&mut file).map_err(|e| ("base-save".to_string(), e.to_string()))?;
+    let prev = Document::load_mem(&file).map_err(|e| ("loads".to_string(), format!("base: {}", e)))?;
+    let prev_objects = prev.objects.clone();
+    let mut inc = lopdf::IncrementalDocument::create_from(file.clone(), prev);
+    let a = (2u32, 0u16);
+    let what = format!("[reclone edit {} call {}] ", edit, call);
+    inc.opt_clone_object_to_new_document(a).map_err(|e| ("reclone-first-clone".to_string(), format!("{}first clone of {:?} failed: {}", what, a, e)))?;
+    let edited = edit_value(edit);
+    inc.new_document.objects.insert(a, edited.clone());
+    if edit == 4 { inc.new_document.set_object((40, 0), Object::Integer(40)); }
+    let r = guarded(|| match call { 0 => inc.opt_clone_object_to_new_document(a).map_err(|e| e.to_string()), _ => inc.get_or_create_resources(a).map(|_| ()).map_err(|e| e.to_string()) });
+    if let Err(p) = &r { return Err(("reclone-no-panic".into(), format!("{}second clone panicked: {}", what, p))); }
+    if call == 0 { if let Ok(Err(e)) = &r { return Err(("reclone-latest-wins".into(), format!("{}cloning an object the update already holds failed: {}", what, e))); } }
+    match inc.new_document.objects.get(&a) {
+        Some(o) if obj_eq(o, &edited) => {}
+        other => return Err(("reclone-latest-wins".into(), format!("{}the update held {:?} = {:?}; after cloning {:?} again it holds {:?}: the older revision replaced the newer one", what, a, edited, a, other))),
+    }
+    if inc.get_prev_documents().objects.len() != prev_objects.len() || prev_objects.iter().any(|(k, v)| inc.get_prev_documents().objects.get(k).map(|o| !obj_eq(o, v)).unwrap_or(true)) {
+        return Err(("reclone-history-preserved".into(), format!("{}the view of the previous revisions changed", what)));
+    }
+    let mut out = vec![];
+    match guarded(|| inc.save_to(&mut out)) { Ok(Ok(())) => {}, other => return Err(("incremental-save".into(), format!("{}{:?}", what, other.map(|r| r.map_err(|e| e.to_string()))))) }
+    if !out.starts_with(&file) { return Err(("reclone-history-preserved".into(), format!("{}the saved file does not start with the bytes loaded", what))); }
+    let re = match guarded(|| Document::load_mem(&out)) { Ok(Ok(d)) => d, other => return Err(("loads".into(), format!("{}reload: {:?}", what, other.map(|r| r.map(|_| ()).map_err(|e| e.to_string())))))};
+    match re.objects.get(&a) {
+        Some(o) if obj_eq(o, &edited) => Ok(()),
+        other => Err(("reclone-latest-wins".into(), format!("{}after save and reload {:?} is {:?}, the update had {:?}", what, a, other, edited))),
+    }
+}
+
 fn producers_for(base_stream: bool) -> Vec<Producer> {
     // a table revision on top of an xref-stream file (or the reverse) would be a hybrid file: outside the domain
     if base_stream { vec![Producer::Ref(Style::XStream), Producer::Ref(Style::ObjStm), Producer::Lopdf] } else { vec![Producer::Ref(Style::Table), Producer::Lopdf] }
@@ -548,7 +597,7 @@ fn case_json(c: &Case) -> Value {
 }
 
 pub fn run(thorough: bool) -> Report {
-    let mut rep = Report::new("base documents of 3 objects (table / xref-stream) x histories of 1..2 (thorough: 3) revisions over 9 update sets (6 replacing / adding under caller-chosen numbers 40..42, 2 adding 1..2 objects whose number the PRODUCER allocates: lopdf by new_document.add_object(), the reference writer highest+1, 1 EMPTY: the revision changes no object and only appends a cross-reference section + trailer - reference table writer: `xref 0 0 trailer`, reference stream writers: an XRef stream listing only itself) x a producer PER REVISION (table base: reference table writer | lopdf IncrementalDocument; xref-stream base: reference xref-stream writer | reference object-stream writer | lopdf IncrementalDocument; all mixed sequences) x {lopdf revisions opened by create_from(bytes, load_mem(bytes)) | by TryInto<IncrementalDocument> for &[u8]} (when a lopdf revision occurs) x {reference ObjStm/XRef objects numbered above everything | with the lowest unused numbers, so the newest section need not hold the highest number} (thorough only, when a reference stream revision occurs) x subsection structure of the reference TABLE writer {one subsection per entry | one per maximal run of consecutive numbers | free head `0 1` + runs | zero-count head `0 0` + runs} (when a reference table revision occurs) x PLACEMENT of the revisions in the file {base saved by lopdf, every revision appended after the previous one | base (FreeHead table / XRef stream) and the maximal leading run of j reference-written revisions written by the reference writer in EVERY physical order (all (j+1)! permutations, identity included; /Prev always chains in revision order, so it points forward in the file whenever a revision lies before its predecessor - the layout of linearized files; fixed-width /Prev, positions iterated to a fixed point where the narrowest /W makes a block length depend on its position, one startxref at the end naming the newest placed section), remaining revisions appended by their producers} x WHAT THE OBJECTS HOLD {arrays | stream objects (dictionary + data of 15..74 bytes whose length differs between objects and revisions; base objects 2..3, every replaced and every added object; the catalog stays a dictionary), /Length direct | the same streams, every stream written by a REFERENCE writer (base included when placed) with `/Length n 0 R`, n an integer object added by the same revision: written plainly right after the stream (table / xref-stream writer) or kept in the revision's object stream with its other non-stream objects while the streams themselves are written plainly (object-stream writer); length objects are numbered like the ObjStm/XRef objects and are part of the expected document; lopdf revisions write streams as lopdf does; skipped when no reference writer takes part} x FIELD WIDTHS /W of every cross-reference stream the reference writers write (when there is one) {[1 4 2] as lopdf writes | the narrowest legal rows: offsets in as few bytes as the section's largest needs, type and third field of width 0 when all rows are type 1 / generation 0, i.e. [0 2 0] for the xref-stream writer, [1 2 1] with an object stream | [1 8 2] (64-bit offsets) | [2 5 3]}; these two dimensions in full product with all the others for histories of 1..2 revisions, for histories of 3 revisions (thorough) with placement = appended, create_from, fresh numbers, one subsection per entry; streams compare by dictionary without /Length and by data; /Size exact; reload after every appended revision and after the placed head; an allocated number must not be one an earlier revision defines", true);
+    let mut rep = Report::new("base documents of 3 objects (table / xref-stream) x histories of 1..2 (thorough: 3) revisions over 9 update sets (6 replacing / adding under caller-chosen numbers 40..42, 2 adding 1..2 objects whose number the PRODUCER allocates: lopdf by new_document.add_object(), the reference writer highest+1, 1 EMPTY: the revision changes no object and only appends a cross-reference section + trailer - reference table writer: `xref 0 0 trailer`, reference stream writers: an XRef stream listing only itself) x a producer PER REVISION (table base: reference table writer | lopdf IncrementalDocument; xref-stream base: reference xref-stream writer | reference object-stream writer | lopdf IncrementalDocument; all mixed sequences) x {lopdf revisions opened by create_from(bytes, load_mem(bytes)) | by TryInto<IncrementalDocument> for &[u8]} (when a lopdf revision occurs) x {reference ObjStm/XRef objects numbered above everything | with the lowest unused numbers, so the newest section need not hold the highest number} (thorough only, when a reference stream revision occurs) x subsection structure of the reference TABLE writer {one subsection per entry | one per maximal run of consecutive numbers | free head `0 1` + runs | zero-count head `0 0` + runs} (when a reference table revision occurs) x PLACEMENT of the revisions in the file {base saved by lopdf, every revision appended after the previous one | base (FreeHead table / XRef stream) and the maximal leading run of j reference-written revisions written by the reference writer in EVERY physical order (all (j+1)! permutations, identity included; /Prev always chains in revision order, so it points forward in the file whenever a revision lies before its predecessor - the layout of linearized files; fixed-width /Prev, positions iterated to a fixed point where the narrowest /W makes a block length depend on its position, one startxref at the end naming the newest placed section), remaining revisions appended by their producers} x WHAT THE OBJECTS HOLD {arrays | stream objects (dictionary + data of 15..74 bytes whose length differs between objects and revisions; base objects 2..3, every replaced and every added object; the catalog stays a dictionary), /Length direct | the same streams, every stream written by a REFERENCE writer (base included when placed) with `/Length n 0 R`, n an integer object added by the same revision: written plainly right after the stream (table / xref-stream writer) or kept in the revision's object stream with its other non-stream objects while the streams themselves are written plainly (object-stream writer); length objects are numbered like the ObjStm/XRef objects and are part of the expected document; lopdf revisions write streams as lopdf does; skipped when no reference writer takes part} x FIELD WIDTHS /W of every cross-reference stream the reference writers write (when there is one) {[1 4 2] as lopdf writes | the narrowest legal rows: offsets in as few bytes as the section's largest needs, type and third field of width 0 when all rows are type 1 / generation 0, i.e. [0 2 0] for the xref-stream writer, [1 2 1] with an object stream | [1 8 2] (64-bit offsets) | [2 5 3]}; these two dimensions in full product with all the others for histories of 1..2 revisions, for histories of 3 revisions (thorough) with placement = appended, create_from, fresh numbers, one subsection per entry; streams compare by dictionary without /Length and by data; /Size exact; reload after every appended revision and after the placed head; an allocated number must not be one an earlier revision defines; R: base (table / xref-stream) x object 2 cloned into the update by opt_clone_object_to_new_document, edited there into one of 6 values (integer, reference to an object only the previous revisions hold / to nothing / to itself / to an object added to the update, array) and asked for again by {opt_clone_object_to_new_document | get_or_create_resources}: the update keeps the edited value, the view of the previous revisions and the loaded bytes are unchanged, and the value survives save and reload", true);
     let maxlen = if thorough { 3 } else { 2 };
     let mut seqs: Vec<Vec<usize>> = vec![];
     for a in 0..N_UPDATES { seqs.push(vec![a]); for b in 0..N_UPDATES { seqs.push(vec![a, b]); if maxlen >= 3 { for c in 0..N_UPDATES { seqs.push(vec![a, b, c]); } } } }
@@ -605,6 +654,10 @@ pub fn run(thorough: bool) -> Report {
         rep.case(true);
         if let Some((o, d)) = r { rep.fail(&o, d.clone(), case_json(c), d); }
     }
+    for base_stream in [false, true] { for edit in 0..N_EDITS { for call in 0..2 {
+        rep.case(true);
+        if let Err((o, d)) = quiet(|| check_reclone(base_stream, edit, call)) { rep.fail(&o, d.clone(), json!({"family": "reclone", "base_stream": base_stream, "edit": edit, "call": call}), d); }
+    } } }
     rep.sample("base(table,3 objects) ; rev1 replaces 2 ; rev2 replaces 3,2".into());
     rep.sample("base(xref stream,3 objects: catalog + 2 streams) ; rev1 by the reference object-stream writer replaces stream 2, written plainly with /Length 52 0 R, integer 52 inside ObjStm 50, XRef stream 51 with /W [1 2 1] ; rev2 by lopdf adds a stream through add_object()".into());
     rep.sample("base(xref stream,3 objects) ; rev1 by the reference object-stream writer adds object 40, ObjStm = 4, XRef = 5 ; rev2 by lopdf replaces 2 and adds two allocated objects".into());
@@ -613,6 +666,9 @@ pub fn run(thorough: bool) -> Report {
 }
 
 pub fn replay(v: &Value) -> Result<(), String> {
+    if v["family"].as_str() == Some("reclone") {
+        return quiet(|| check_reclone(v["base_stream"].as_bool().unwrap_or(false), v["edit"].as_u64().unwrap_or(0) as usize, v["call"].as_u64().unwrap_or(0) as usize)).map_err(|e| format!("{}: {}", e.0, e.1));
+    }
     let seq: Vec<usize> = v["seq"].as_array().cloned().unwrap_or_default().iter().map(|x| x.as_u64().unwrap_or(0) as usize).collect();
     let prods: Vec<Producer> = match v["producers"].as_array() {
         Some(a) => a.iter().map(|x| producer_from(x.as_str().unwrap_or("Lopdf"))).collect(),
